@@ -138,10 +138,12 @@ def open_case(ctx: Ctx, case: Case, prop: str, load=True):
         return False
     if not real_ok:
         return None
-    if prop in ("C02", "C16"):
-        # how much of what is explored lies inside the domain of the conformance theorem `ser_conforms`
+    if prop in ("C02", "C16", "C03", "C01"):
+        # how much of what is explored lies inside the domains of the conformance theorems `ser_conforms` / `de_conforms`
         wf = ctx.driver.ask1("gen wf").split()
-        ctx.count("ser_conforms_fragment." + ("inside" if wf[-2:] == ["fragment", "1"] else "outside"))
+        d = dict(zip(wf[1::2], wf[2::2]))
+        ctx.count("ser_conforms_fragment." + ("inside" if d.get("fragment") == "1" else "outside"))
+        ctx.count("de_conforms_fragment." + ("inside" if d.get("fragmentde") == "1" else "outside"))
     return _load(ctx, case, prop) if load else True
 
 
